@@ -13,6 +13,7 @@ RULE = ("random well-formed text files: dimension sizes 1-6, column subsets (dat
         "non-trivial = at least two of: permuted columns, shuffled rows, sparse rows, optional columns.")
 RULE += " " + 'Decimal values beyond single precision in every field.'
 RULE += " " + 'Rounds 9-10: member columns with 1-based or arbitrary ascending labels.'
+RULE += " " + 'Rounds 11-12: metadata lines after the header, between rows or at the end of the file.'
 ASSUMPTIONS = ["no duplicated (time, lead time, location) rows; locations without an id column are identified by lat/lon/elev",
                "numbers in the file are short exact decimals"]
 REQUIRED_COUNTERS = ["files_read", "cells_compared", "locations_compared", "metadata_checks"]
